@@ -615,7 +615,9 @@ func (rw *rewriter) selectStmt(s *ast.SelectStmt) ast.Stmt {
 		rw.stmts(cc.Body)
 		if cc.Comm == nil {
 			hasDefault = true
-			clauses = append(clauses, &ast.CaseClause{List: []ast.Expr{&ast.UnaryExpr{Op: token.SUB, X: &ast.BasicLit{Kind: token.INT, Value: "1"}}}, Body: cc.Body})
+			// the default clause of the select becomes the default clause of the switch (vsched.Select returns -1 for it),
+			// so that the switch is a terminating statement exactly when the select was one
+			clauses = append(clauses, &ast.CaseClause{List: nil, Body: cc.Body})
 			continue
 		}
 		body := cc.Body
@@ -669,6 +671,8 @@ func (rw *rewriter) selectStmt(s *ast.SelectStmt) ast.Stmt {
 	hd := "false"
 	if hasDefault {
 		hd = "true"
+	} else {
+		clauses = append(clauses, &ast.CaseClause{List: nil, Body: []ast.Stmt{&ast.ExprStmt{X: &ast.CallExpr{Fun: ast.NewIdent("panic"), Args: []ast.Expr{&ast.BasicLit{Kind: token.STRING, Value: strconv.Quote("vsched: select returned no case")}}}}}})
 	}
 	if holder == nil {
 		args := append([]ast.Expr{ast.NewIdent(hd)}, caseExprs...)
